@@ -12,6 +12,7 @@ import (
 	"hash/fnv"
 	"reflect"
 	"sort"
+	"sync/atomic"
 	"unsafe"
 )
 
@@ -111,7 +112,7 @@ func VerifSetState(set *TemplateSet) VerifSetStateT {
 	}
 	sort.Strings(st.BannedTags)
 	sort.Strings(st.BannedFilters)
-	st.Frozen = set.firstTemplateCreated
+	st.Frozen = atomic.LoadUint32(&set.firstTemplateCreated) == 1
 	set.templateCacheMutex.Lock()
 	for k, v := range set.templateCache {
 		st.CacheKeys = append(st.CacheKeys, k)
